@@ -41,7 +41,7 @@ def digest_of(ops, refs, sut_results):
     return h.hexdigest()
 
 
-def run_one(prop, base_seed, index, tier, mask, want_raw=False, want_digest=False):
+def run_one(prop, base_seed, index, tier, mask, want_raw=False, want_digest=False, shrink_it=True):
     """one simulated run. returns a JSON-able summary (and the violation, shrunk, if any)."""
     from . import props
     t0 = time.time()
@@ -57,7 +57,9 @@ def run_one(prop, base_seed, index, tier, mask, want_raw=False, want_digest=Fals
                     "checked": verdict.get("checked", len(case["ops"]))})
         if want_digest:
             out["digest"] = digest_of(case["ops"], [r for r in case["refs"]], verdict["sut"]["results"])
-        if verdict["divergence"] is not None:
+        if verdict["divergence"] is not None and not shrink_it:
+            out["violation"] = {"unshrunk": True}
+        elif verdict["divergence"] is not None:
             from . import shrink
             small = shrink.minimise(spec, case, verdict["divergence"], mask, _CACHE)
             out["violation"] = small
